@@ -87,6 +87,16 @@ handle types `FileDbMapDb…` are checked; the `RefCell::borrow…` plumbing of 
 `if let Some(m) = e { return Ok(m); }`, `match e { Some(m) => Ok(m), None => panic!(..) }`, `let _ = e;`;
 `FileDbMapDb<K>::open(self.path(), name, params)?` is the function parameter `opener`; the method sets of the two `impl`s,
 `FileDbInner::{open, path}`, `FileDb::{open, path}`, `FileDbMap::<KT>::open` pinned token-wise, REG_PINS).
+Ninth batch: the last glue of the engine.  The iterator adaptors (dbxxx.rs `DbXxxIter`, `DbXxxIntoIter`, `DbXxxKeys`, `DbXxxValues`:
+structs pinned to the one field `iter: DbXxxIterMut<KT>` and represented by its state tuple; `new`, `Iterator::next`,
+`Iterator::size_hint` of each and `DbXxxIterMut::size_hint` -> `iter<X>New` / `iter<X>Next` / `iter<X>SizeHint`, `iterSizeHint` in
+Engine.lean, through the generated `iterNew` / `iterNext`; class EmitIA, `emit_iter_adaptors`: a tiny typed subset — a key and a
+value are different classes, `o.map(|(k, _v)| k)`, `self.iter.next();` as a statement) and the API paths that build them
+(dbmap/mod.rs `iter`, `iter_mut`, `keys`, `values`, the three `into_iter`; list IA_API: which struct each returns is configured,
+the declarations of `trait DbMap<KT>` pinned) -> `mapIter`, …; `is_dirty` of the map and of the handle -> `mapIsDirty`, `apiIsDirty`
+in FlushOps.lean (`emit_is_dirty`); `read_fill_buffer` of the `VarFile` (`buf_file.read_fill_buffer()` = the bottom primitive
+`FileM.readFill`), of the three handles (FileOps.lean) and of the map (`readFillBuffer`, Engine.lean; the wrapper of `FileDbMap<KT>`
+and the declaration in `trait DbXxxBase` pinned).
 Property-preserving rewrites of the source do not fail and give the same terms (section "property-preserving rewrites"):
 the parameters of a translated function may be renamed (signatures are compared up to the parameter names, the body is renamed
 to the configured names: `sig_eq_renamed`, `rename_params`), so may the locals that the translation refers to (`locked`, `hash`,
@@ -2112,6 +2122,10 @@ IO_BUF_PRIMS = {
     "read_u8": ("FileM.readU8", [], "int", "u8"),
     # `rabuf::FileSetLen::set_len` of the buffer: truncate / extend with zeros, a cursor beyond the new end is clamped
     "set_len": ("FileM.setLen", ["int"], "unit", None),
+    # `BufFile::read_fill_buffer` of rabuf: `self.seek(SeekFrom::End(0))?` and then `fetch_chunk` over the file from offset 0
+    # on until the buffer is full: the cursor goes to the end of the file, chunks are loaded (others written back / evicted),
+    # which the flat file does not see (`RaBuf.readFillBuffer`; Abyss/Lemmas/ReadFillL.lean)
+    "read_fill_buffer": ("FileM.readFill", [], "unit", None),
 }
 # `file.read_exact(&mut buf)?;` with `buf` a local byte array of a length that is evident (`let mut buf = [0u8, …];`):
 # `std::io::Read::read_exact`, the default loop over `impl Read for VarFile` = `buf_file.read` (pinned in io_pin_open:
@@ -4820,6 +4834,12 @@ IO_FUNCS = [
      {"assoc": True, "open": "val"}),
     ("HtxFileOpen", "open_with_params", IO_HTX, "htxOpen", _IO_OS, [None, None, "sig2", "p"],
      "(sig2 : List Nat) (p : HashBucketsParam) : M Nat", {"assoc": True, "open": "htx"}),
+    # ---- `read_fill_buffer`: the `VarFile` (= `buf_file.read_fill_buffer()`, the bottom primitive `FileM.readFill`) and the
+    #      three handles above it
+    (VFO, "read_fill_buffer", IO_VF, "vfReadFillBuffer", "(&mut self) -> Result<()>", [], ": M Unit"),
+    ("KeyFile", "read_fill_buffer", IO_KEY, "keyReadFillBuffer", "(&self) -> Result<()>", [], ": M Unit"),
+    ("ValueFile", "read_fill_buffer", IO_VAL, "valReadFillBuffer", "(&self) -> Result<()>", [], ": M Unit"),
+    ("HtxFile", "read_fill_buffer", IO_HTX, "htxReadFillBufferH", "(&self) -> Result<()>", [], ": M Unit"),
 ]
 
 # the engine (dbxxx.rs `FileDbXxxInner<KT>`) -> Engine.lean, monad `DbM` over the three files.
@@ -4893,6 +4913,8 @@ ENG_FUNCS = [
      "(vc : FileCfg) : DbM (List (Nat × Nat))", {"impl": _ENG_C}),
     (ENG, "htx_filling_rate_per_mill", IO_DBX, "htxFillingRatePerMill", "(&self) -> Result<(u64, u32)>", [],
      "(bucketsSize : Nat) : DbM (Nat × Nat)", {"impl": _ENG_C}),
+    # ---- `read_fill_buffer` of the map: the three files, in the order of the source
+    (ENG, "read_fill_buffer", IO_DBX, "readFillBuffer", "(&mut self) -> Result<()>", [], ": DbM Unit", {"impl": _ENG_B}),
 ]
 
 
@@ -5889,6 +5911,352 @@ def emit_open_map(repo, feats, done, methods):
     return "/-- %s -/\ndef openMap (sig2 : List Nat) (p : HashBucketsParam) : DbM Nat := do\n%s\n\n" % (doc, "\n".join(ind(lines)))
 
 
+# ----------------------------------------------------------------------------- the iterator adaptors (ninth batch)
+# dbxxx.rs `DbXxxIter`, `DbXxxIntoIter`, `DbXxxKeys`, `DbXxxValues` (each a struct around one `DbXxxIterMut<KT>`),
+# `DbXxxIterMut::size_hint`, and the API paths of dbmap/mod.rs that build them -> Engine.lean (emit_iter_adaptors).
+# (struct, infix of the Lean names, class of the items that `next` yields)
+IA_ADAPTORS = [("DbXxxIter", "Iter", ("pair", "K", "B")), ("DbXxxIntoIter", "IntoIter", ("pair", "K", "B")),
+               ("DbXxxKeys", "Keys", "K"), ("DbXxxValues", "Values", "B")]
+IA_FIELD = "iter"                     # the one field of an adaptor struct (definition pinned)
+IA_ST = "selfIter"                    # … and its Lean name: the state tuple of the `DbXxxIterMut` inside
+IA_HINT = ("pair", "usize", ("opt", "usize"))
+IA_ITEM_RS = {"K": "KT", "B": "Vec<u8>"}
+IA_DBMAP_IMPL = "impl<KT: DbMapKeyType> DbMap<KT> for FileDbMap<KT>"
+IA_DBMAP_TRAIT = "pub trait DbMap<KT: DbMapKeyType>: DbXxx<KT>"
+# the API paths: (impl header, Rust name, Lean name, signature, the struct it returns)
+IA_API = [
+    (IA_DBMAP_IMPL, "iter", "mapIter", "(&self) -> DbXxxIter<KT>", "DbXxxIter"),
+    (IA_DBMAP_IMPL, "iter_mut", "mapIterMut", "(&mut self) -> DbXxxIterMut<KT>", "DbXxxIterMut"),
+    (IA_DBMAP_IMPL, "keys", "mapKeys", "(&self) -> DbXxxKeys<KT>", "DbXxxKeys"),
+    (IA_DBMAP_IMPL, "values", "mapValues", "(&self) -> DbXxxValues<KT>", "DbXxxValues"),
+    ("impl<KT: DbMapKeyType> IntoIterator for FileDbMap<KT>", "into_iter", "mapIntoIter", "(self) -> DbXxxIntoIter<KT>", "DbXxxIntoIter"),
+    ("impl<KT: DbMapKeyType> IntoIterator for &FileDbMap<KT>", "into_iter", "mapIntoIterRef", "(self) -> DbXxxIter<KT>", "DbXxxIter"),
+    ("impl<KT: DbMapKeyType> IntoIterator for &mut FileDbMap<KT>", "into_iter", "mapIntoIterMut", "(self) -> DbXxxIterMut<KT>",
+     "DbXxxIterMut"),
+]
+
+
+def ia_rs_ty(t):
+    if isinstance(t, tuple):
+        if t[0] == "pair":
+            return "(%s, %s)" % (ia_rs_ty(t[1]), ia_rs_ty(t[2]))
+        if t[0] == "opt":
+            return "Option<%s>" % ia_rs_ty(t[1])
+        if t[0] == "adapt":
+            return t[1] + "<KT>"
+    return IA_ITEM_RS.get(t, t)
+
+
+def ia_lean_ty(t):
+    if isinstance(t, tuple):
+        if t[0] == "pair":
+            return "%s × %s" % (io_atom(ia_lean_ty(t[1])) if (isinstance(t[1], tuple) and t[1][0] == "pair") else ia_lean_ty(t[1]),
+                                ia_lean_ty(t[2]))
+        if t[0] == "opt":
+            return "Option %s" % io_atom(ia_lean_ty(t[1]))
+        if t[0] == "adapt":
+            return _IT_ST
+    if t in ("K", "B"):
+        return "List Nat"
+    if t in WIDTH:
+        return "Nat"
+    fail("configuration error: class %r of the iterator adaptors" % (t,))
+
+
+class EmitIA:
+    """the bodies of the iterator adaptors and of the API functions that build them: a tiny typed subset.
+    Classes: `K` (a key), `B` (bytes), an integer type (`u64`, `usize`), ("pair", a, b), ("opt", a), ("adapt", S) (the struct
+    `S<KT>` = the state tuple of its `DbXxxIterMut`), `H` (a handle of the map: the state of `DbM`, no Lean value).
+    Expressions: `S::new(<handle>)?` / `.unwrap()` (`Err` / the panic = the failure of the monad), `self.iter.next()` (runs
+    `iterNext` on the state tuple and re-binds it), `self.iter.size_hint()`, `o.map(|pat| e)`, tuples, `Some(e)`, a local, a data
+    field of `self` (in `DbXxxIterMut::size_hint`), `e as usize`, `a + b`, literals; statements: `let pat = e;`, `e;` with a
+    call of `self.iter.next()` (its value is dropped, the state moves on)."""
+
+    def __init__(self, where, self_kind, pure, ctors):
+        self.where = where
+        self.self_kind = self_kind        # "adaptor" (`self.iter`), "itermut" (the data fields), "handle" (`self.0`), None
+        self.pure = pure                  # a pure definition: no call of the monad
+        self.ctors = ctors                # struct -> Lean name of its translated `new`
+        self.env = {}                     # Rust local -> (Lean text, class)
+        self.lines = []
+        self.ntry = 0
+        self.used = {}                    # Lean name -> Rust local
+
+    def fresh(self):
+        self.ntry += 1
+        return "tryVal" if self.ntry == 1 else "tryVal%d" % self.ntry
+
+    def declare(self, v, ty):
+        ln = io_ident(v)
+        if v == "_":
+            return "_"
+        if ln in ("st", IA_ST) or re.match(r"^tryVal\d*$", ln) or ln in IO_RESERVED or ln in self.ctors.values() \
+                or ln in ("iterNext", "iterSizeHint") or ln.startswith("self") or self.used.get(ln, v) != v:
+            fail("%s: the variable `%s` would get the reserved / an ambiguous Lean name `%s`" % (self.where, v, ln))
+        self.used[ln] = v
+        self.env[v] = (ln, ty)
+        return ln
+
+    def bind(self, pat, ty):
+        """a pattern against a value of class `ty`: its Lean text"""
+        if pat[0] == "pvar":
+            return self.declare(pat[1], ty)
+        if pat[0] == "ptuple" and len(pat[1]) == 2 and isinstance(ty, tuple) and ty[0] == "pair":
+            return "(%s, %s)" % (self.bind(pat[1][0], ty[1]), self.bind(pat[1][1], ty[2]))
+        fail("%s: a pattern that is not a variable / a pair against a value of class %s" % (self.where, ia_rs_ty(ty)))
+
+    def is_handle(self, e):
+        """`db_map` (the parameter), `self.0`, `.clone()` / `Rc::clone(&..)` of one: the map itself"""
+        while (e[0] == "mcall" and e[2] == "clone" and not e[3]) or (e[0] == "call" and e[1] == ["Rc", "clone"] and len(e[2]) == 1):
+            e = e[1] if e[0] == "mcall" else e[2][0]
+        if e[0] == "path" and len(e[1]) == 1 and self.env.get(e[1][0], (None, None))[1] == "H":
+            return True
+        return self.self_kind == "handle" and e == ("field", ("path", ["self"]), "0")
+
+    def result_call(self, e):
+        """`S::new(<handle>)`: a `Result<S<KT>>` -> (Lean function, class) or None"""
+        if e[0] == "call" and len(e[1]) == 2 and e[1][1] == "new" and e[1][0] in self.ctors:
+            if len(e[2]) != 1 or not self.is_handle(e[2][0]):
+                fail("%s: the argument of `%s::new(..)` is not the handle of the map (`db_map` / `self.0` / a clone of it)"
+                     % (self.where, e[1][0]))
+            return self.ctors[e[1][0]], ("adapt", e[1][0])
+        return None
+
+    def ex(self, e):
+        w = self.where
+        k = e[0]
+        if k == "path" and len(e[1]) == 1 and e[1][0] in self.env and self.env[e[1][0]][1] != "H":
+            return self.env[e[1][0]]
+        if k == "num":
+            return str(e[1]), "lit"
+        if k == "try" or (k == "mcall" and e[2] == "unwrap" and not e[3]):
+            rc = self.result_call(e[1])
+            if rc is None:
+                fail("%s: `?` / `.unwrap()` of something that is not `<iterator struct>::new(<handle>)`" % w)
+            if self.pure:
+                fail("%s: a call of `%s` in a function that is translated as a pure definition" % (w, rc[0]))
+            v = self.fresh()
+            self.lines.append("let %s ← %s" % (v, rc[0]))
+            return v, rc[1]
+        if self.result_call(e) is not None:
+            fail("%s: the `Result` of `%s::new(..)` must be consumed at once by `?` / `.unwrap()`" % (w, e[1][0]))
+        if k == "mcall" and e[1] == ("field", ("path", ["self"]), IA_FIELD) and self.self_kind == "adaptor" and not e[3]:
+            if e[2] == "next":
+                if self.pure:
+                    fail("%s: `self.%s.next()` in a function that is translated as a pure definition" % (w, IA_FIELD))
+                v = self.fresh()
+                self.lines.append("let (%s, %s) ← iterNext %s" % (v, IA_ST, IA_ST))
+                return v, ("opt", ("pair", "K", "B"))
+            if e[2] == "size_hint":
+                return "(iterSizeHint %s)" % IA_ST, IA_HINT
+            fail("%s: `self.%s.%s()`: only `next()` and `size_hint()` of the `DbXxxIterMut` are translated" % (w, IA_FIELD, e[2]))
+        if k == "mcall" and e[2] == "map" and len(e[3]) == 1 and e[3][0][0] == "closure":
+            t, ty = self.ex(e[1])
+            if not (isinstance(ty, tuple) and ty[0] == "opt"):
+                fail("%s: `.map(|..| ..)` on a value of class %s (an `Option` expected)" % (w, ia_rs_ty(ty)))
+            _c, ps, body = e[3][0]
+            if len(ps) != 1:
+                fail("%s: the closure of `.map(..)` has %d parameters" % (w, len(ps)))
+            saved, n0 = (dict(self.env), dict(self.used)), len(self.lines)
+            pt = self.bind(ps[0], ty[1])
+            bt, bty = self.ex(body)
+            if len(self.lines) != n0:
+                fail("%s: the closure of `.map(..)` calls the iterator" % w)
+            self.env, self.used = saved
+            return "(%s.map fun %s => %s)" % (io_atom(t), pt, bt), ("opt", bty)
+        if k == "tuple" and len(e[1]) == 2:
+            (a, ta), (b, tb) = self.ex(e[1][0]), self.ex(e[1][1])
+            return "(%s, %s)" % (a, b), ("pair", ta, tb)
+        if k == "call" and e[1] == ["Some"] and len(e[2]) == 1:
+            t, ty = self.ex(e[2][0])
+            return "(some %s)" % io_atom(t), ("opt", ty)
+        if k == "field" and e[1] == ("path", ["self"]) and self.self_kind == "itermut":
+            sd = IO_STRUCTS[_IT]
+            if e[2] not in sd["widths"]:
+                fail("%s: `self.%s` is not an integer field of `%s`" % (w, e[2], _IT))
+            return sd["lean"][e[2]], sd["widths"][e[2]]
+        if k == "cast":
+            t, ty = self.ex(e[1])
+            if ty == "lit" and e[2] in WIDTH and int(t) < 2 ** WIDTH[e[2]]:
+                return t, e[2]
+            if ty not in WIDTH or e[2] not in WIDTH:
+                fail("%s: unsupported cast `as %s` of a value of class %s" % (w, e[2], ia_rs_ty(ty)))
+            if WIDTH[ty] <= WIDTH[e[2]]:
+                return t, e[2]                                   # widening / `u64 as usize` on a 64-bit target: the identity
+            return "(%s %% 2^%d)" % (t, WIDTH[e[2]]), e[2]
+        if k == "bin" and e[1] == "+":
+            (a, ta), (b, tb) = self.ex(e[2]), self.ex(e[3])
+            ty = tb if ta == "lit" else ta
+            if ty not in WIDTH or (ta, tb).count("lit") == 2 or any(x not in (ty, "lit") for x in (ta, tb)):
+                fail("%s: `+` on values of classes %s and %s" % (w, ia_rs_ty(ta), ia_rs_ty(tb)))
+            return "(%s + %s)" % (a, b), ty
+        fail("%s: expression `%s` is outside the subset of the iterator adaptors" % (w, rs_show(e) if k in (
+            "path", "mcall", "call", "field", "tuple", "num", "bin", "not", "cast") else k))
+
+    def stmts(self, body):
+        for st in body[1]:
+            if st[0] == "let" and st[2] is None:
+                n0 = len(self.lines)
+                t, ty = self.ex(st[3])
+                if st[1] == ("pvar", "_"):
+                    if len(self.lines) == n0:
+                        fail("%s: `let _ = e;` without a call" % self.where)
+                    continue
+                if st[1][0] == "pvar" and re.match(r"^[A-Za-z_][A-Za-z0-9_']*$", t):
+                    # a name for a value that has one: the local stands for it
+                    ln = self.declare(st[1][1], ty)
+                    self.used.pop(ln, None)
+                    self.env[st[1][1]] = (t, ty)
+                    continue
+                self.lines.append("let %s := %s" % (self.bind(st[1], ty), t))
+            elif st[0] == "expr":
+                n0 = len(self.lines)
+                self.ex(st[1])
+                if len(self.lines) == n0:
+                    fail("%s: an expression statement without a call" % self.where)
+            else:
+                fail("%s: statement `%s …` is outside the subset of the iterator adaptors" % (self.where, st[0]))
+        if body[2] is None:
+            fail("%s: the body has no value" % self.where)
+        return body[2]
+
+
+def ia_fn(repo, feats, methods, rel, header, rust, sig, where_what):
+    """the one definition of `rust` in the block `header`: (tokens, description of the block, [(configured parameter name, name
+    in the source)], body AST with the parameters under their configured names)"""
+    where = "%s::<%s>::%s" % (rel, header, rust)
+    if (rel, header) not in methods:
+        methods[(rel, header)] = io_find_methods(repo, feats, rel, header)
+    cands = methods[(rel, header)].get(rust, [])
+    if len(cands) != 1:
+        fail("%s: %d definitions with a true `#[cfg]` (exactly one expected)" % (where, len(cands)))
+    toks, blockdesc = cands[0]
+    got, want = io_sig_toks(toks), io_strip_tc([v for _k, v in tokenize(sig)])
+    pairs = sig_eq_renamed(got, want)
+    if pairs is None:
+        fail("%s: signature is `%s`, the translation (%s) is configured for `%s`" % (where, " ".join(got), where_what, " ".join(want)))
+    tv = [v for _k, v in toks]
+    ib = tv.index("{")
+    pp = P(toks[ib:], feats, where)
+    pp.keep_try = True
+    body = pp.block()
+    if pp.i != len(toks) - ib or pp.dropped or pp.kept:
+        fail("%s: tokens after the body / `#[cfg]` statements" % where)
+    body = rename_params(body, [g for _w, g in pairs], [w for w, _g in pairs], where)
+    return where, blockdesc, pairs, body
+
+
+def ia_only_methods(repo, feats, methods, rel, header, names, why):
+    if (rel, header) not in methods:
+        methods[(rel, header)] = io_find_methods(repo, feats, rel, header)
+    if sorted(methods[(rel, header)]) != sorted(names):
+        fail("%s::<%s>: its methods are `%s`, the translation is configured for `%s` (%s)"
+             % (rel, header, "`, `".join(sorted(methods[(rel, header)])), "`, `".join(sorted(names)), why))
+
+
+def emit_iter_adaptors(repo, feats, done, methods):
+    """texts of the definitions (Engine.lean, after `openMap`)"""
+    texts = []
+    it_new, it_next = done[(_IT, "new")], done[(_IT, "next")]
+    if (it_new.lean, it_next.lean) != ("iterNew", "iterNext") or it_new.params[0].cls != "dbmap" or it_next.needs or it_new.needs:
+        fail("Engine: configuration error: `DbXxxIterMut::new` / `Iterator::next` are not `iterNew` / `iterNext`")
+    dbmap_ty = "Rc<RefCell<FileDbXxxInner<KT>>>"
+    # ---- `DbXxxIterMut::size_hint` (a pure function of the state tuple)
+    hdr = "impl<KT: DbMapKeyType> Iterator for %s<KT>" % _IT
+    ia_only_methods(repo, feats, methods, IO_DBX, hdr, ["next", "size_hint"],
+                    "another overridden method of `Iterator` would not be what the default method does with `next`")
+    where, blockdesc, _pairs, body = ia_fn(repo, feats, methods, IO_DBX, hdr, "size_hint", "(&self) -> (usize, Option<usize>)",
+                                           "`iterSizeHint`")
+    em = EmitIA(where, "itermut", True, {})
+    t, ty = em.ex(em.stmts(body))
+    if ty != IA_HINT:
+        fail("%s: the value has the class %s, the signature says `(usize, Option<usize>)`" % (where, ia_rs_ty(ty)))
+    sd = IO_STRUCTS[_IT]
+    lines = ["let (%s) := st" % ", ".join(sd["lean"][fld] for fld, _fc in sd["fields"])] + em.lines + [t]
+    texts.append("/-- %s %s, `fn size_hint`: a pure function of the state tuple `st` = (%s) (`&self`; `u64 as usize` is the identity on a "
+                 "64-bit target) -/\ndef iterSizeHint (st : %s) : %s :=\n%s\n"
+                 % (IO_DBX, blockdesc, ", ".join("`%s`" % fld for fld, _fc in sd["fields"]), _IT_ST, ia_lean_ty(IA_HINT),
+                    "\n".join(ind(lines))))
+    # ---- the four adaptor structs
+    ctors = {_IT: it_new.lean}
+    for sname, infix, item in IA_ADAPTORS:
+        io_pin_tokens(repo, IO_DBX, "pub struct " + sname,
+                      "#[derive(Debug)] pub struct %s<KT: DbMapKeyType> { %s: %s<KT>, }" % (sname, IA_FIELD, _IT),
+                      "the definition of `%s`" % sname)
+        hdr_i, hdr_it = "impl<KT: DbMapKeyType> %s<KT>" % sname, "impl<KT: DbMapKeyType> Iterator for %s<KT>" % sname
+        ia_only_methods(repo, feats, methods, IO_DBX, hdr_i, ["new"], "the one constructor")
+        ia_only_methods(repo, feats, methods, IO_DBX, hdr_it, ["next", "size_hint"],
+                        "another overridden method of `Iterator` would not be what the default method does with `next`")
+        state_note = ("the struct `%s<KT>` (definition pinned: the one field `%s: %s<KT>`) is the state tuple of the `%s` inside"
+                      % (sname, IA_FIELD, _IT, _IT))
+        # `new`
+        where, blockdesc, _pairs, body = ia_fn(repo, feats, methods, IO_DBX, hdr_i, "new", "(db_map: %s) -> Result<Self>" % dbmap_ty,
+                                               "`iter%sNew`" % infix)
+        em = EmitIA(where, None, False, {_IT: it_new.lean})
+        em.env["db_map"] = (None, "H")
+        tail = em.stmts(body)
+        if not (tail[0] == "call" and tail[1] == ["Ok"] and len(tail[2]) == 1 and tail[2][0][0] == "structlit"
+                and [f for f, _e in tail[2][0][2]] == [IA_FIELD]):
+            fail("%s: the value is not `Ok(Self { %s: … })`" % (where, IA_FIELD))
+        t, ty = em.ex(tail[2][0][2][0][1])
+        if ty != ("adapt", _IT):
+            fail("%s: the field `%s` gets a value of class %s (a `%s<KT>` expected)" % (where, IA_FIELD, ia_rs_ty(ty), _IT))
+        texts.append("/-- %s %s, `fn new`: %s; `db_map` is the map (the state of `DbM`); `?`: `Err` is the failure of the monad -/\n"
+                     "def iter%sNew : DbM (%s) := do\n%s\n"
+                     % (IO_DBX, blockdesc, state_note, infix, _IT_ST, "\n".join(ind(em.lines + ["pure " + io_atom(t)]))))
+        ctors[sname] = "iter%sNew" % infix
+        # `next`
+        ity = ("opt", item)
+        where, blockdesc, _pairs, body = ia_fn(repo, feats, methods, IO_DBX, hdr_it, "next", "(&mut self) -> %s" % ia_rs_ty(ity),
+                                               "`iter%sNext`" % infix)
+        em = EmitIA(where, "adaptor", False, {})
+        t, ty = em.ex(em.stmts(body))
+        if ty != ity:
+            fail("%s: the value has the class `%s`, the signature says `%s`" % (where, ia_rs_ty(ty), ia_rs_ty(ity)))
+        lines = ["let %s := st" % IA_ST] + em.lines + ["pure (%s, %s)" % (t, IA_ST)]
+        texts.append("/-- %s %s, `fn next`: %s, the parameter `st`; the value is (the value of the Rust function, the new state); "
+                     "`self.%s.next()` is `iterNext` -/\ndef iter%sNext (st : %s) : DbM (%s × (%s)) := do\n%s\n"
+                     % (IO_DBX, blockdesc, state_note, IA_FIELD, infix, _IT_ST, ia_lean_ty(ity), _IT_ST, "\n".join(ind(lines))))
+        # `size_hint`
+        where, blockdesc, _pairs, body = ia_fn(repo, feats, methods, IO_DBX, hdr_it, "size_hint", "(&self) -> (usize, Option<usize>)",
+                                               "`iter%sSizeHint`" % infix)
+        em = EmitIA(where, "adaptor", True, {})
+        t, ty = em.ex(em.stmts(body))
+        if ty != IA_HINT:
+            fail("%s: the value has the class %s, the signature says `(usize, Option<usize>)`" % (where, ia_rs_ty(ty)))
+        lines = ["let %s := st" % IA_ST] + em.lines + [t]
+        texts.append("/-- %s %s, `fn size_hint`: a pure function of the state tuple (`&self`); `self.%s.size_hint()` is `iterSizeHint` -/\n"
+                     "def iter%sSizeHint (st : %s) : %s :=\n%s\n"
+                     % (IO_DBX, blockdesc, IA_FIELD, infix, _IT_ST, ia_lean_ty(IA_HINT), "\n".join(ind(lines))))
+    # ---- the API paths that build them (dbmap/mod.rs; the declarations of the trait `DbMap<KT>` in lib.rs)
+    decl = io_find_methods(repo, feats, API_LIB, IA_DBMAP_TRAIT)
+    want_decl = dict((r, "fn %s%s;" % (r, sg)) for h, r, _l, sg, _s in IA_API if h == IA_DBMAP_IMPL)
+    if sorted(decl) != sorted(want_decl):
+        fail("%s::<%s>: the methods are %s, the translation is configured for %s" % (API_LIB, IA_DBMAP_TRAIT, sorted(decl), sorted(want_decl)))
+    for r, want in sorted(want_decl.items()):
+        got = [v for _k, v in decl[r][0][0]] if len(decl[r]) == 1 else None
+        if got != [v for _k, v in tokenize(want)]:
+            fail("%s::<%s>::%s is `%s`, the translation is configured for `%s`" % (API_LIB, IA_DBMAP_TRAIT, r, " ".join(got or ["?"]), want))
+    for hdr in sorted(set(h for h, _r, _l, _sg, _s in IA_API)):
+        ia_only_methods(repo, feats, methods, API_DBMAP, hdr, [r for h, r, _l, _sg, _s in IA_API if h == hdr], "the API paths to the iterators")
+    impls = [v for tv in [SRC_TOKENS.get(API_DBMAP, [])] for i, v in enumerate(tv) if v == "IntoIterator" and tv[i + 1] == "for"]
+    if len(impls) != 3:
+        fail("%s: %d implementations of `IntoIterator` (for `FileDbMap<KT>`, `&FileDbMap<KT>`, `&mut FileDbMap<KT>`: 3 expected)"
+             % (API_DBMAP, len(impls)))
+    for hdr, rust, lean, sig, sname in IA_API:
+        where, blockdesc, _pairs, body = ia_fn(repo, feats, methods, API_DBMAP, hdr, rust, sig, "`%s`" % lean)
+        em = EmitIA(where, "handle", False, ctors)
+        t, ty = em.ex(em.stmts(body))
+        if ty != ("adapt", sname):
+            fail("%s: the value is a `%s`, the signature says `%s<KT>`" % (where, ia_rs_ty(ty), sname))
+        nxt = "iterNext" if sname == _IT else "iter%sNext" % dict((s_, i_) for s_, i_, _t in IA_ADAPTORS)[sname]
+        texts.append("/-- %s %s, `fn %s`: the value is the `%s<KT>` (its state tuple; its `next` is `%s`); `self.0` (a clone of the "
+                     "`Rc`) is the map: the state of `DbM`; `.unwrap()` of the `Result`: the panic on `Err` is the failure of the monad -/\n"
+                     "def %s : DbM (%s) := do\n%s\n"
+                     % (API_DBMAP, blockdesc, rust, sname, nxt, lean, _IT_ST, "\n".join(ind(em.lines + ["pure " + io_atom(t)]))))
+    return texts
+
+
 def emit_engine(repo, feats, out, done, methods):
     io_pin_engine(repo, feats)
     io_pin_piece_iters(repo, feats, methods)
@@ -5910,6 +6278,13 @@ def emit_engine(repo, feats, out, done, methods):
     if len(set(f.lean for f in done.values())) != len(done) or "openMap" in set(f.lean for f in done.values()):
         fail("Engine: two functions with the same Lean name")
     open_map = emit_open_map(repo, feats, done, methods)
+    # the API path of `read_fill_buffer`: the declaration in the trait, the wrapper of the map handle
+    decl = io_find_methods(repo, feats, API_LIB, "pub trait DbXxxBase").get("read_fill_buffer", [])
+    if len(decl) != 1 or [v for _k, v in decl[0][0]] != [v for _k, v in tokenize("fn read_fill_buffer(&mut self) -> Result<()>;")]:
+        fail("%s::<pub trait DbXxxBase>::read_fill_buffer is not the declaration `fn read_fill_buffer(&mut self) -> Result<()>;`" % API_LIB)
+    fl_pin_method(repo, feats, methods, API_DBMAP, "impl<KT: DbMapKeyType> DbXxxBase for FileDbMap<KT>", "read_fill_buffer",
+                  "fn read_fill_buffer(&mut self) -> Result<()> { RefCell::borrow_mut(&self.0).read_fill_buffer() }")
+    adaptors = emit_iter_adaptors(repo, feats, done, methods)
     with open(os.path.join(out, "Engine.lean"), "w") as fh:
         fh.write("import Abyss.DbM\nimport Abyss.Gen.FileOps\n")
         fh.write(ENG_HEADER)
@@ -5917,8 +6292,9 @@ def emit_engine(repo, feats, out, done, methods):
                  "open Abyss.DbM (liftHtx liftKey liftVal)\n\n")
         io_write_fns(fh, order)
         fh.write(open_map)
+        fh.write("\n".join(adaptors) + "\n")
         fh.write("end Abyss.Gen\n")
-    return len(order) + 1
+    return len(order) + 1 + len(adaptors)
 
 
 # ----------------------------------------------------------------------------- flush / sync and the dirty flag
@@ -5985,6 +6361,60 @@ def fl_block(stmts, tail, where, top):
     elif tail is not None:
         fail("%s: a block with a value" % where)
     return out + ["pure ()"]
+
+
+def fl_bool(e, where, self_kind, lines, cnt):
+    """a `bool` expression over the dirty flag -> Lean text (do-items that read the flag are appended to `lines`):
+    `self.dirty` (the map: `FlushM.isDirty`), `self.is_dirty()` (the map) / `RefCell::borrow(&self.0).is_dirty()`,
+    `self.0.borrow().is_dirty()` (the handle): `mapIsDirty`; `!e`, `true`, `false`"""
+    if e == FL_DIRTY and self_kind == "map":
+        cnt[0] += 1
+        v = "selfDirty" if cnt[0] == 1 else "selfDirty%d" % cnt[0]
+        lines.append("let %s ← FlushM.isDirty" % v)
+        return v
+    is_call = e[0] == "mcall" and e[2] == "is_dirty" and not e[3]
+    if is_call and ((self_kind == "map" and e[1] == ("path", ["self"])) or (self_kind == "handle" and e[1] in (
+            ("call", ["RefCell", "borrow"], [("field", ("path", ["self"]), "0")]),
+            ("mcall", ("field", ("path", ["self"]), "0"), "borrow", [])))):
+        cnt[1] += 1
+        v = "tryVal" if cnt[1] == 1 else "tryVal%d" % cnt[1]
+        lines.append("let %s ← mapIsDirty" % v)
+        return v
+    if e[0] == "not":
+        return "(!%s)" % fl_bool(e[1], where, self_kind, lines, cnt)
+    if e in (("path", ["true"]), ("path", ["false"])):
+        return e[1][0]
+    fail("%s: expression outside the subset of the `is_dirty` functions (`self.dirty`, `[RefCell::borrow(&self.0) | self]"
+         ".is_dirty()`, `!e`, `true`, `false`)" % where)
+
+
+def emit_is_dirty(repo, feats, methods):
+    """`FileDbXxxInner::is_dirty` -> `mapIsDirty`, `FileDbMap::is_dirty` -> `apiIsDirty` (texts for FlushOps.lean)"""
+    texts = []
+    for rel, header, lean, kind, what in (
+            (IO_DBX, _ENG_I, "mapIsDirty", "map", "`self.dirty` reads the flag (`FlushM.isDirty`)"),
+            (API_DBMAP, "impl<KT: DbMapKeyType> FileDbMap<KT>", "apiIsDirty", "handle",
+             "`RefCell::borrow(&self.0)` is the map behind the handle, `.is_dirty()` on it is `mapIsDirty`")):
+        where = "%s::<%s>::is_dirty" % (rel, header)
+        if (rel, header) not in methods:
+            methods[(rel, header)] = io_find_methods(repo, feats, rel, header)
+        cands = methods[(rel, header)].get("is_dirty", [])
+        if len(cands) != 1:
+            fail("%s: %d definitions with a true `#[cfg]` (exactly one expected)" % (where, len(cands)))
+        toks, blockdesc = cands[0]
+        recv, params, ret, ib = io_parse_sig(toks, where)
+        if recv != "&self" or params or ret != "bool":
+            fail("%s: signature is not `(&self) -> bool`" % where)
+        pp = P(toks[ib:], feats, where)
+        pp.keep_try = True
+        body = pp.block()
+        if pp.i != len(toks) - ib or pp.dropped or pp.kept or body[1] or body[2] is None:
+            fail("%s: the body is not a single expression" % where)
+        lines = []
+        t = fl_bool(body[2], where, kind, lines, [0, 0])
+        texts.append("/-- %s %s, `fn is_dirty` (`&self`: the state is not changed): %s -/\ndef %s {β : Type} : FlushM β Bool := do\n%s\n"
+                     % (rel, blockdesc, what, lean, "\n".join(ind(lines + ["pure " + t]))))
+    return texts
 
 
 def emit_flushops(repo, feats, out, done, methods):
@@ -6072,6 +6502,7 @@ def emit_flushops(repo, feats, out, done, methods):
                  "`self.find_in_hash_buckets_kt(hash, key_kt)?`): a `delete` of an absent key does not raise the flag (it writes "
                  "nothing) -/\ndef delSetsDirtyOnlyWhenFound : Bool := true\n" % dele.src)
     texts += emit_dbsync(repo, feats, methods)
+    texts += emit_is_dirty(repo, feats, methods)
     with open(os.path.join(out, "FlushOps.lean"), "w") as fh:
         fh.write("import Abyss.FlushM\n")
         fh.write(FL_HEADER)
@@ -6772,6 +7203,9 @@ Statement by statement:
   the map is done to the entry of the registry; `?`).  `sync_all` / `sync_data` = `self.applay_all(|o| o.sync_all())`:
   `o.sync_all()` on a handle is `mapSyncAll` (the wrappers `impl DbXxxBase for FileDbMap<KT>` and `FileDb::sync_all` are
   pinned), as an action on (map, fault counter) (`FlushM.onMap`).
+* `mapIsDirty`: `FileDbXxxInner::is_dirty`, `apiIsDirty`: `FileDbMap::is_dirty` (src/filedb/dbmap/mod.rs), in `FlushM β` (they
+  read the flag; no file is touched): `self.dirty` is `FlushM.isDirty`, `RefCell::borrow(&self.0).is_dirty()` / `self.is_dirty()`
+  is `mapIsDirty`, `!e`, `true`, `false`.
 -/
 """
 
@@ -6849,6 +7283,23 @@ panic / a loop out of fuel.  The rules of FileOps.lean apply; in addition:
   and `Ok(Self { key_file, val_file, htx_file, dirty: true, _phantom: std::marker::PhantomData })`; each statement is
   `liftKey (keyOpen sig2)` / `liftVal (valOpen sig2)` / `liftHtx (htxOpen sig2 p)` (FileOps.lean); the value is the
   `buckets_size` of the table file (the map is the three files of `DbM`; of its handles only `HtxFile` carries data).
+* `readFillBuffer`: `FileDbXxxInner::read_fill_buffer`; the three files in the order of the source, each `liftVal` / `liftKey` /
+  `liftHtx` of the translated `read_fill_buffer` of the handle (FileOps.lean: down to the primitive `FileM.readFill`).  The
+  wrapper `impl DbXxxBase for FileDbMap<KT>` (`RefCell::borrow_mut(&self.0).read_fill_buffer()`) and the declaration in the trait
+  `DbXxxBase` are pinned.
+* the iterator adaptors `DbXxxIter`, `DbXxxIntoIter`, `DbXxxKeys`, `DbXxxValues` (after `openMap`): each struct is pinned to
+  `{ iter: DbXxxIterMut<KT> }` and IS the state tuple of the `DbXxxIterMut` inside; of each, `new` -> `iter<X>New`,
+  `Iterator::next` -> `iter<X>Next` (`self.iter.next()` is `iterNext` on the state tuple, which is re-bound; `o.map(|(k, _v)| k)` is
+  `o.map fun (k, _v) => k`), `Iterator::size_hint` -> `iter<X>SizeHint` (a pure function; `self.iter.size_hint()` is
+  `iterSizeHint`, the translation of `DbXxxIterMut::size_hint`: `self.f` is the component of the tuple, `u64 as usize` the
+  identity on a 64-bit target); the `impl` blocks must have exactly these methods (another overridden method of `Iterator`
+  would not be the default one over `next`).  The classes of the values are checked against the signatures (a key `KT` and a
+  value `Vec<u8>` are both `List Nat` in Lean, but `keys()` that yields the value does not pass).  The API paths of
+  src/filedb/dbmap/mod.rs: `iter`, `iter_mut`, `keys`, `values` (`impl DbMap<KT> for FileDbMap<KT>`; the declarations of the trait in
+  src/lib.rs pinned) and the three `IntoIterator::into_iter` (`FileDbMap<KT>`, `&FileDbMap<KT>`, `&mut FileDbMap<KT>`) ->
+  `mapIter`, `mapIterMut`, `mapKeys`, `mapValues`, `mapIntoIter`, `mapIntoIterRef`, `mapIntoIterMut`: WHICH struct each returns is
+  configured (a `keys()` that builds a `DbXxxValues` fails the translation), the body `S::new(self.0.clone()).unwrap()` is the
+  translated `new` of the struct it names (`.unwrap()`: the panic is the failure of the monad).
 -/
 """
 
@@ -6935,6 +7386,9 @@ key file (src/filedb/inner/val.rs `ValuePiece`, `VarFileValueCache`; src/filedb/
   value `Ok(Self(Rc::new(RefCell::new(c))))` (the handle) is the data of `c`: `()` resp. the `buckets_size`.
   `let buckets_size = match params.buckets_size { … };` is `bucketsOf p` of Funcs.lean (the translation of exactly this
   statement; `none` = `capacity_to_buckets_size(0)` panics = `FileM.fail`).
+* `read_fill_buffer`: `VarFile::read_fill_buffer` (`self.buf_file.read_fill_buffer()`: the bottom primitive `FileM.readFill` — the
+  cursor goes to the end of the file, the bytes stay; what is loaded into the buffer is not part of the flat file) and the
+  `read_fill_buffer` of the three handles `KeyFile<KT>`, `ValueFile`, `HtxFile` above it.
 -/
 """
 
